@@ -98,12 +98,25 @@ def incVal : IncKind → Val → Option (Val × Val)
   | .postDec, .null => some (.int 0, .int (-1))
   | _, _ => none
 
-/-- `switch` label comparison (`==` on equal kinds). -/
+/-- `switch` label comparison = the language's `==` (`data.LooseCompare a b == 0`, the one rule all
+comparison operators share; `SwitchStatement.isMatch` since fix C02-switch-loose-compare):
+equal kinds by value; `null` against a string as `""`; `null` or a bool on either side: both sides
+as booleans (`switch (true) { case 1: }` matches); an int against a string by the int's text (exact
+unless the string is a non-canonical numeric string such as `'01'` or `'1.0'`, which Go parses and
+compares by value — floats and numeric parsing are outside this value layer, the harness's pairs
+stream covers them); lists are unordered against ints, strings and each other = no match. -/
 def looseEq : Val → Val → Bool
   | .int a, .int b => a == b
   | .str a, .str b => a == b
-  | .bool a, .bool b => a == b
   | .null, .null => true
+  | .null, .str s => s == ""
+  | .str s, .null => s == ""
+  | .bool a, v => a == v.truthy
+  | v, .bool b => v.truthy == b
+  | .null, v => !v.truthy
+  | v, .null => !v.truthy
+  | .int a, .str s => toString a == s
+  | .str s, .int b => s == toString b
   | _, _ => false
 
 /-- `match` arm comparison (`===`). -/
